@@ -142,7 +142,7 @@ Proof.
     [|destruct (iter_range_upd_inv bd (ba2_state "i" o) (fun j y => N.land y (uget o j)) (fun x => Forall (fun y => (y < 256)%N) x /\ List.length x = List.length b)) with (n := nn) (k := kk) (v := 0) (x := b) as [v' E]] end.
   - intros k v x [Hx Hxl] Hk. unfold ba2_state. rewrite <- (Z2N.id k) by lia. set (kn := Z.to_N k). rewrite N2Z.id.
     assert (Z.of_N kn < Z.of_nat (List.length x)) by (unfold kn; lia).
-    sym_exec. norm_state. erewrite uset_ext_at; [reflexivity|cbn beta; reflexivity].
+    sym_exec. norm_state. erewrite uset_ext_at; [reflexivity|cbn beta; first [reflexivity|apply N.land_comm]].
   - intros k x [Hx Hxl]. split; [apply Forall_uset'; [exact Hx|]|rewrite uset_length; exact Hxl].
     intros y Hy. pose proof (Nland_le y (uget o k)). lia.
   - exact HU.
@@ -182,7 +182,7 @@ Proof.
     [|destruct (iter_range_find1 bd (ba2_state "i" o) (fun j x => negb (N.land x (uget o j) =? 0)%N) b HF nn kk 0) as [v' E]] end.
   - intros k v Hk. unfold ba2_state. rewrite <- (Z2N.id k) by lia. set (kn := Z.to_N k). rewrite N2Z.id.
     assert (Z.of_N kn < Z.of_nat (List.length b)) by (unfold kn; lia).
-    sym_exec.
+    sym_exec. rewrite ?(N.land_comm (uget o kn) (uget b kn)).
     destruct (N.land (uget b kn) (uget o kn) =? 0)%N; cbn [negb b2z Z.eqb]; norm_state; reflexivity.
   - lia.
   - lia.
@@ -355,7 +355,7 @@ Proof.
     [|destruct (iter_range_upd_inv bd (ba2_state "i" o) (fun j y => N.land y (uget o j)) (fun x => Forall (fun y => (y < 256)%N) x /\ List.length x = List.length b)) with (n := nn) (k := kk) (v := 0) (x := b) as [v' E]] end.
   - intros k v x [Hx Hxl] Hk. unfold ba2_state. rewrite <- (Z2N.id k) by lia. set (kn := Z.to_N k). rewrite N2Z.id.
     assert (Z.of_N kn < Z.of_nat (List.length x)) by (unfold kn; lia).
-    sym_exec. norm_state. erewrite uset_ext_at; [reflexivity|cbn beta; reflexivity].
+    sym_exec. norm_state. erewrite uset_ext_at; [reflexivity|cbn beta; first [reflexivity|apply N.land_comm]].
   - intros k x [Hx Hxl]. split; [apply Forall_uset'; [exact Hx|]|rewrite uset_length; exact Hxl].
     intros y Hy. pose proof (Nland_le y (uget o k)). lia.
   - exact HU.
@@ -383,7 +383,7 @@ Proof.
     [|destruct (iter_range_find1 bd (ba2_state "i" o) (fun j x => negb (N.land x (uget o j) =? 0)%N) b HF nn kk 0) as [v' E]] end.
   - intros k v Hk. unfold ba2_state. rewrite <- (Z2N.id k) by lia. set (kn := Z.to_N k). rewrite N2Z.id.
     assert (Z.of_N kn < Z.of_nat (List.length b)) by (unfold kn; lia).
-    sym_exec.
+    sym_exec. rewrite ?(N.land_comm (uget o kn) (uget b kn)).
     destruct (N.land (uget b kn) (uget o kn) =? 0)%N; cbn [negb b2z Z.eqb]; norm_state; reflexivity.
   - lia.
   - lia.
